@@ -60,6 +60,10 @@ CELLS = {
     "cubic": ([4.0, 4.0, 4.0], [90.0, 90.0, 90.0]),
     "ortho": ([4.0, 5.0, 6.5], [90.0, 90.0, 90.0]),
     "triclinic": ([4.0, 5.0, 6.5], [75.0, 100.0, 115.0]),
+    # exactly one skewed angle each: the box matrix then has exactly one non-zero off-diagonal element
+    "mono_alpha": ([4.0, 5.0, 6.5], [75.0, 90.0, 90.0]),
+    "mono_beta": ([4.0, 5.0, 6.5], [90.0, 105.0, 90.0]),
+    "mono_gamma": ([4.0, 5.0, 6.5], [90.0, 90.0, 60.0]),
 }
 
 
@@ -74,6 +78,9 @@ def build_traj(n_atoms, n_frames, cell, mag, sign, timek, seed):
     u = grids.jitter(n_frames * n_atoms, 3, 2.0, seed).reshape(n_frames, n_atoms, 3)   # in [-1, 1)
     if sign == "positive":
         u = np.abs(u)
+    if sign == "z-long":
+        # anisotropic extent: only z spans the full magnitude (integer-packing code treats the axes separately)
+        u = u * np.array([1e-4, 1e-4, 1.0])
     xyz = (u * mag).astype(np.float32)
     kw = {}
     if cell == "varying":
@@ -106,7 +113,7 @@ def coord_tol(cap, x_nm, prec=None, n_atoms=10, ext=""):
 
 def expected_failure(ext, cap, cell, mag, n_atoms, t):
     """Configurations the format documents as unsupported: an exception is the right outcome."""
-    if cap["cell"] == "rect-lengths" and cell in ("triclinic", "varying"):
+    if cap["cell"] == "rect-lengths" and t.unitcell_angles is not None and not np.all(t.unitcell_angles == 90):
         return "mdcrd stores only rectilinear boxes (documented ValueError)"
     if cap.get("needs_cell") and cell == "none":
         return "%s needs a unit cell (explicit ValueError)" % ext
@@ -382,7 +389,8 @@ def cases(quick):
     exts = list(CAP)
     atoms = [1, 9, 10] if quick else [1, 2, 9, 10, 13]
     frames = [1, 3] if quick else [1, 2, 3]
-    cells = ["none", "ortho", "varying"] if quick else ["none", "cubic", "ortho", "triclinic", "varying"]
+    cells = ["none", "ortho", "varying", "mono_alpha"] if quick else \
+        ["none", "cubic", "ortho", "triclinic", "varying", "mono_alpha", "mono_beta", "mono_gamma"]
     mags = [1.0, 90.0] if quick else [1e-3, 1.0, 90.0, 950.0]     # 950 nm = 9500 A: just under the %8.3f field limit
     signs = ["mixed"] if quick else ["mixed", "positive"]
     times = ["nonuniform"] if quick else ["default", "uniform", "nonuniform"]
@@ -396,6 +404,10 @@ def cases(quick):
             opts = [None]
         for c in itertools.product([ext], atoms, frames, cells, mags, signs, times, opts):
             out.append(c)
+        # binary formats have no narrow text field: 20 000 nm along z only (XTC packs integers of x*1000 per axis)
+        if CAP[ext]["q"] in (0.0,) or ext == "xtc":
+            for c in itertools.product([ext], atoms, frames, ["none", "ortho"], [20000.0], ["z-long"], times[:1], opts):
+                out.append(c)
     return out
 
 
